@@ -83,7 +83,8 @@ UNWRAP_OK = {
     "std::result::Result::unwrap_or_else",  # Ok part; Err part is the closure's result
 }
 UNWRAP_SOME = {"std::option::Option::unwrap", "std::option::Option::expect"}
-CLONE = {"std::clone::Clone::clone", "std::borrow::ToOwned::to_owned"}
+CLONE = {"std::clone::Clone::clone", "std::borrow::ToOwned::to_owned",
+         "std::slice::to_vec", "alloc::slice::to_vec"}  # <[T]>::to_vec: element-wise clone into a new Vec = Vec::clone
 TAKE = {"std::option::Option::take", "std::mem::take"}
 TRY_LOCKS = {"std::sync::Mutex::try_lock", "std::sync::RwLock::try_read", "std::sync::RwLock::try_write"}
 LOCKS = {"std::sync::Mutex::lock", "std::sync::Mutex::try_lock", "std::sync::RwLock::read", "std::sync::RwLock::write", "std::sync::RwLock::try_read", "std::sync::RwLock::try_write"}
